@@ -3,7 +3,8 @@ package props
 import "github.com/scigolib/hdf5/internal/zzverif/ev"
 
 // C19 — rebalancing options never change content (part A, file level) and the automatic
-// mode selector obeys its constraints (part B, package level).
+// mode selector obeys its constraints (part B, package level); part C: twin runs on the
+// name index itself.
 
 func c19BCases(tier string) int {
 	if tier == "thorough" {
@@ -17,7 +18,11 @@ func c19Run(c *ev.Ctx) {
 		c19bRun(c)
 		return
 	}
-	c19aRun(c)
+	if c.Index < c19BCases(c.Tier)+c19ACases(c.Tier) {
+		c19aRun(c)
+		return
+	}
+	c19cRun(c)
 }
 
 var C19 = &ev.Property{
@@ -25,12 +30,13 @@ var C19 = &ev.Property{
 	Level: "exploration",
 	Rule: "part B: a sequence of 1-200 observations under a controllable clock (steps 0, 1ns, period-1ns, period, period+1ns, 1s, 3h, occasionally backwards) and a random constraint setting (MinConfidence 0/0.3/0.65/0.7/1, stability period 0/1ns/30s/1h, allowed list nil/empty/singleton/pair/all), driven three ways: scripted strategy through ConfigSelector, rule-based strategy on random features incl. file-size thresholds ±1 and NaN ratios, and SmartRebalancer.Evaluate over a WorkloadDetector fed bursts of operations; every returned decision is checked against a reference gate model (allowed, confidence fallback, confidence range, no mode invented, no mode change within the stability period on a non-decreasing clock). " +
 		"part A: twin runs of one attribute history under a rebalancing configuration and under the default configuration; the logical dumps of the reopened files must be equal. " +
+		"part C: twin runs of one insert/update/delete-by-name history on the name index (version 2 B-tree, node sizes 128/512/4096/default so that the single leaf reaches its capacity) in the default configuration and under immediate / lazy (threshold 0.001-1, delay 1ns-1h, batch 1-100) / incremental (interval 1us-1ms, budget 1us-1ms) rebalancing with toggles (force, rebalance all, disable, enable again) at random points: the outcome of every call, the records after every step and the records reloaded after WriteToFile must be equal. " +
 		"non-trivial: >=2 observations (B) / history crossing into dense storage or with deletes (A); distinct = constraint setting + outcome-count descriptor (B), configuration + history shape (A).",
 	Assumptions: []string{
 		"ModeNone is always permitted (documented fallback); an empty allowed list means all modes (documented)",
 		"the stability clause is judged on non-decreasing clocks; sequences with a backwards clock are run for the other gates only",
 	},
-	Cases: func(tier string) int { return c19BCases(tier) + c19ACases(tier) },
+	Cases: func(tier string) int { return c19BCases(tier) + c19ACases(tier) + c19CCases(tier) },
 	Run:   c19Run,
 	Floor: func(tier string) int64 { return 200 },
 }
